@@ -132,16 +132,23 @@ func (sg *Getter) GetSamples(
 			"colIndex", request.ShareIndex,
 		)
 		errGroup.Go(func() error {
+			// decode into a local value: the result slot must only ever hold a verified sample,
+			// as the slice is returned to the caller even when some of the requests fail
+			var sample shwap.Sample
 			req := func(ctx context.Context, peer libpeer.ID) error {
-				return sg.client.Get(ctx, &request, &samples[i], peer)
+				return sg.client.Get(ctx, &request, &sample, peer)
 			}
 			verify := func() error {
-				if samples[i].IsEmpty() {
+				if sample.IsEmpty() {
 					return errors.New("nil response")
 				}
-				return samples[i].Verify(header.DAH, request.RowIndex, request.ShareIndex)
+				return sample.Verify(header.DAH, request.RowIndex, request.ShareIndex)
 			}
-			return sg.executeRequest(ctx, logger, header, request.Name(), req, verify)
+			if err := sg.executeRequest(ctx, logger, header, request.Name(), req, verify); err != nil {
+				return err
+			}
+			samples[i] = sample
+			return nil
 		})
 	}
 
